@@ -3,7 +3,7 @@
    Compiled from /verif/ocaml so that xmodel_core.ml lands there. *)
 Require Extraction.
 Require Import ExtrOcamlBasic.
-From X Require Import Base Arr Consts BitToolsSpec BitToolsGen BitVector CompactVector Dac Tail Trie Serial Builder Spec Wf History Conc Tools.
+From X Require Import Base Arr Consts BitToolsSpec BitToolsGen BitVector CompactVector Dac Tail Trie Serial Stream Builder Spec Wf History Conc Tools.
 Extraction Language OCaml.
 Extraction "xmodel_core.ml"
   (* words *) popcount popcount_intr msb msb_intr uleq_step_9 byte_counts bit_position select_in_word select_in_word_intr
@@ -15,7 +15,7 @@ Extraction "xmodel_core.ml"
   (* trie *) lookup decode mk_prefix default_prefix next_prefix pfx_decoded mk_predictive default_predictive
              next_predictive prefix_search predictive_search enumerate
              t_bin_mode t_num_keys t_alphabet_size t_max_length t_num_nodes t_num_units t_num_free_units t_tail_length
-  (* serial *) save memory_in_bytes load mmap get_type_id enc_bv enc_cv enc_bc enc_tail fs_load fs_save fs_type_id
+  (* serial *) save memory_in_bytes load mmap get_type_id enc_bv enc_cv enc_bc enc_tail fs_load fs_save fs_type_id save_dev save_chunks sched_cap sched_transient
   (* builder *) build build_logical own_table table_ok
   (* certificate *) assemble disassemble lwf_b cert_check
   (* histories, schedules *) hstep hrun astep arun hop_ok dict_run dict_seq
